@@ -64,6 +64,15 @@ Theorem C12_source_constructor : forall g gg vs so L, rep_graph gg g -> rep_vset
   | PyExn _ => ctor_ok g L = false end.
 Proof. intros g gg vs so L Hg Hvs Hnd Hso. apply ctor_refines; assumption. Qed.
 Print Assumptions C12_source_constructor.
+(* get_total_degree (translated from the CURRENT source) returns the stored total; on every object the constructor accepts that is the degree of the divisor the object represents *)
+Theorem C12_source_total_degree : forall g gg vs so L, rep_graph gg g -> rep_vset (nv g) vs -> NoDup vs -> (forall l, Permutation.Permutation (so l) l) ->
+  match CFDivisor___init__ so vs gg L with
+  | PyOk (dd, t) => CFDivisor_get_total_degree t = degD g (tab (nv g) (fun v => d_get v 0 L))
+  | PyExn _ => True end.
+Proof. intros g gg vs so L Hg Hvs Hnd Hso. pose proof (ctor_refines g gg Hg vs Hvs Hnd so Hso L) as H. destruct (CFDivisor___init__ so vs gg L) as [[dd t]|e]; [|exact I].
+  destruct H as (Hok & _ & Ht). unfold CFDivisor_get_total_degree. rewrite Ht. unfold ctor_ok in Hok. apply andb_true_iff in Hok. destruct Hok as [H1 H2].
+  rewrite (zsum_pairs_as_function (nv g) L (proj1 (nodupb_NoDup _) H1) H2). unfold degD, deg, Vg. apply zsum_ext. intros v Hv. apply in_seq in Hv. rewrite nthZ_tab by (cbn in Hv; lia). reflexivity. Qed.
+Print Assumptions C12_source_total_degree.
 (* -D and k*D on dictionaries representing D: never refused, a NEW dictionary representing dneg / dscale (vertex-wise, C12_vertexwise), total_degree = -deg D / k*deg D *)
 Theorem C12_source_neg_rmul : forall g gg vs so dd D k, rep_graph gg g -> rep_vset (nv g) vs -> NoDup vs -> (forall l, Permutation.Permutation (so l) l) -> rep_div (nv g) dd D ->
   (exists dd', CFDivisor___neg__ dd vs gg so = PyOk (dd', - zsum (nthZ D) (seq 0 (nv g))) /\ rep_div (nv g) dd' (dneg (nv g) D)) /\
